@@ -14,16 +14,16 @@ import (
 	"golang.org/x/tools/go/ssa/ssautil"
 )
 
-// Fields of imapclient.Client that the source declares as protected by Client.mutex (the
-// block of fields following "mutex sync.Mutex" in the struct declaration).
-func guardedFields(pkg *packages.Package) (map[string]bool, error) {
-	obj := pkg.Types.Scope().Lookup("Client")
+// guardedFields returns the fields of the named struct that the source declares as protected
+// by its mutex: the block of fields following "mutex sync.Mutex" in the struct declaration.
+func guardedFields(pkg *packages.Package, typeName string) (map[string]bool, error) {
+	obj := pkg.Types.Scope().Lookup(typeName)
 	if obj == nil {
-		return nil, fmt.Errorf("type Client not found")
+		return nil, fmt.Errorf("type %s not found", typeName)
 	}
 	st, ok := obj.Type().Underlying().(*types.Struct)
 	if !ok {
-		return nil, fmt.Errorf("Client is not a struct")
+		return nil, fmt.Errorf("%s is not a struct", typeName)
 	}
 	out := map[string]bool{}
 	after := false
@@ -38,30 +38,88 @@ func guardedFields(pkg *packages.Package) (map[string]bool, error) {
 		}
 	}
 	if len(out) == 0 {
-		return nil, fmt.Errorf("no fields after Client.mutex")
+		return nil, fmt.Errorf("no fields after %s.mutex", typeName)
 	}
 	return out, nil
 }
 
-// fieldAccess writes the table of accesses to the guarded fields, each with the verdict of a
-// must-hold analysis for Client.mutex: held on every path reaching the access, either locally
-// or because every caller of the function holds it (functions only called with the lock held).
-func fieldAccess(dir, out string) {
+// guardSpec names one struct whose fields after "mutex" are meant to be guarded.
+type guardSpec struct {
+	pkgSuffix string // "/imapclient"
+	typeName  string // "Client"
+	class     string // lock class of its own mutex, as computed by mutexClass
+}
+
+var clientSpecs = []guardSpec{{"/imapclient", "Client", "imapclient.Client.mutex"}}
+var serverSpecs = []guardSpec{
+	{"/imapserver/imapmemserver", "Mailbox", "imapmemserver.Mailbox.mutex"},
+	{"/imapserver/imapmemserver", "User", "imapmemserver.User.mutex"},
+	{"/imapserver/imapmemserver", "Server", "imapmemserver.Server.mutex"},
+	{"/imapserver", "MailboxTracker", "imapserver.MailboxTracker.mutex"},
+	{"/imapserver", "SessionTracker", "imapserver.SessionTracker.mutex"},
+}
+
+type access struct {
+	field, fn, pos string
+	write, fresh   bool
+	held           uint64 // must-hold set of lock classes at the access
+}
+
+// fieldAccess writes the table of accesses to the guarded fields, each with the set of lock
+// classes that a must-hold analysis finds held on EVERY path reaching the access — locally, or
+// because every caller of the function holds them (greatest fixpoint over the call graph:
+// functions only ever called with a lock held).
+//
+// client = imapclient.Client: one table entry carries a boolean "Client.mutex is held" (C13).
+// server = the mutex-bearing structs of imapserver / imapmemserver: each entry carries the whole
+// set, and Coq checks the Eraser lockset condition (a common lock for every field) (C14).
+func fieldAccess(dir, out string, server bool) {
 	cfg := &packages.Config{Mode: packages.LoadAllSyntax, Dir: dir, Env: append(os.Environ(), "GOFLAGS=-mod=mod", "GOPROXY=off")}
-	pkgs, err := packages.Load(cfg, "./imapclient")
+	patterns, specs := []string{"./imapclient"}, clientSpecs
+	if server {
+		patterns, specs = []string{"./imapserver/..."}, serverSpecs
+	}
+	pkgs, err := packages.Load(cfg, patterns...)
 	if err != nil || packages.PrintErrors(pkgs) > 0 {
 		fmt.Fprintln(os.Stderr, "load error", err)
-		os.Exit(2)
-	}
-	guarded, err := guardedFields(pkgs[0])
-	if err != nil {
-		fmt.Fprintln(os.Stderr, err)
 		os.Exit(2)
 	}
 	prog, _ := ssautil.AllPackages(pkgs, ssa.InstantiateGenerics)
 	prog.Build()
 	cg := cha.CallGraph(prog)
-	const mu = "imapclient.Client.mutex"
+
+	// guarded fields per (type)
+	type tkey struct{ pkg, typ string }
+	guarded := map[tkey]map[string]bool{}
+	for _, sp := range specs {
+		var pkg *packages.Package
+		for _, p := range pkgs {
+			if strings.HasSuffix(p.PkgPath, sp.pkgSuffix) {
+				pkg = p
+			}
+		}
+		if pkg == nil {
+			fmt.Fprintln(os.Stderr, "package not found for", sp.typeName)
+			os.Exit(2)
+		}
+		g, err := guardedFields(pkg, sp.typeName)
+		if err != nil {
+			fmt.Fprintln(os.Stderr, err)
+			os.Exit(2)
+		}
+		guarded[tkey{sp.pkgSuffix, sp.typeName}] = g
+	}
+	specOf := func(named *types.Named) (guardSpec, bool) {
+		if named.Obj().Pkg() == nil {
+			return guardSpec{}, false
+		}
+		for _, sp := range specs {
+			if named.Obj().Name() == sp.typeName && strings.HasSuffix(named.Obj().Pkg().Path(), sp.pkgSuffix) {
+				return sp, true
+			}
+		}
+		return guardSpec{}, false
+	}
 
 	var funcs []*ssa.Function
 	for f := range ssautil.AllFunctions(prog) {
@@ -72,34 +130,53 @@ func fieldAccess(dir, out string) {
 		if p == nil && f.Origin() != nil {
 			p = f.Origin().Pkg
 		}
-		if p != nil && strings.HasSuffix(p.Pkg.Path(), "/imapclient") && len(f.Blocks) > 0 {
+		if p == nil || len(f.Blocks) == 0 {
+			continue
+		}
+		path := p.Pkg.Path()
+		if (!server && strings.HasSuffix(path, "/imapclient")) || (server && strings.Contains(path, "/imapserver")) {
 			funcs = append(funcs, f)
 		}
 	}
 	sort.Slice(funcs, func(i, j int) bool { return funcs[i].String() < funcs[j].String() })
 
-	// must-hold at each instruction, given whether the lock is held on entry
-	type access struct {
-		field, fn, pos string
-		write, held    bool
+	// lock classes -> bit index
+	classIdx := map[string]uint{}
+	var classes []string
+	bit := func(cl string) uint64 {
+		i, ok := classIdx[cl]
+		if !ok {
+			i = uint(len(classes))
+			if i >= 63 {
+				fmt.Fprintln(os.Stderr, "too many lock classes")
+				os.Exit(2)
+			}
+			classIdx[cl] = i
+			classes = append(classes, cl)
+		}
+		return 1 << i
 	}
-	analyse := func(f *ssa.Function, entryHeld bool, onAccess func(a access), onCall func(site ssa.CallInstruction, held bool)) {
-		in := make([]int, len(f.Blocks)) // -1 unknown, 0 not held, 1 held
-		for i := range in {
-			in[i] = -1
-		}
-		in[0] = 0
-		if entryHeld {
-			in[0] = 1
-		}
+	for _, sp := range specs {
+		bit(sp.class)
+	}
+	const top = ^uint64(0)
+
+	// must-hold at each instruction, given the set held on entry
+	analyse := func(f *ssa.Function, entry uint64, onAccess func(a access), onCall func(site ssa.CallInstruction, held uint64)) {
+		in := make([]uint64, len(f.Blocks))
+		seen := make([]bool, len(f.Blocks))
+		in[0], seen[0] = entry, true
 		work := []int{0}
-		outState := func(b *ssa.BasicBlock, st int, report bool) int {
-			held := st == 1
+		outState := func(b *ssa.BasicBlock, held uint64, report bool) uint64 {
 			for _, ins := range b.Instrs {
 				switch v := ins.(type) {
 				case *ssa.Call:
-					if cl, lock, ok := lockOp(&v.Call); ok && cl == mu {
-						held = lock
+					if cl, lock, ok := lockOp(&v.Call); ok {
+						if lock {
+							held |= bit(cl)
+						} else {
+							held &^= bit(cl)
+						}
 						continue
 					}
 					if report && onCall != nil {
@@ -107,7 +184,13 @@ func fieldAccess(dir, out string) {
 					}
 				case *ssa.Go:
 					if report && onCall != nil {
-						onCall(v, false) // a new goroutine starts without the lock
+						onCall(v, 0) // a new goroutine starts without any lock
+					}
+				case *ssa.Defer:
+					// a deferred Unlock leaves the lock held for the rest of the body; any other
+					// deferred call runs at return time: nothing is assumed held then
+					if _, _, ok := lockOp(&v.Call); !ok && report && onCall != nil {
+						onCall(v, 0)
 					}
 				case *ssa.FieldAddr:
 					if !report || onAccess == nil {
@@ -118,12 +201,16 @@ func fieldAccess(dir, out string) {
 						continue
 					}
 					named, ok := pt.Elem().(*types.Named)
-					if !ok || named.Obj().Name() != "Client" {
+					if !ok {
+						continue
+					}
+					sp, ok := specOf(named)
+					if !ok {
 						continue
 					}
 					stt := named.Underlying().(*types.Struct)
 					name := stt.Field(v.Field).Name()
-					if !guarded[name] {
+					if !guarded[tkey{sp.pkgSuffix, sp.typeName}][name] {
 						continue
 					}
 					write := false
@@ -141,84 +228,142 @@ func fieldAccess(dir, out string) {
 							}
 						}
 					}
-					onAccess(access{name, f.String(), prog.Fset.Position(pos).String(), write, held})
+					// an access through the function's own fresh allocation (composite literal
+					// in a constructor) touches an object that is not shared yet
+					_, fresh := v.X.(*ssa.Alloc)
+					fname := name
+					if server {
+						fname = sp.typeName + "." + name
+					}
+					onAccess(access{fname, f.String(), prog.Fset.Position(pos).String(), write, fresh, held})
 				}
 			}
-			if held {
-				return 1
-			}
-			return 0
+			return held
 		}
 		for len(work) > 0 {
 			bi := work[0]
 			work = work[1:]
 			o := outState(f.Blocks[bi], in[bi], false)
 			for _, succ := range f.Blocks[bi].Succs {
-				n := in[succ.Index]
-				switch {
-				case n == -1:
-					n = o
-				case n == 1 && o == 0:
-					n = 0
+				n := o
+				if seen[succ.Index] {
+					n = in[succ.Index] & o
 				}
-				if n != in[succ.Index] {
-					in[succ.Index] = n
+				if !seen[succ.Index] || n != in[succ.Index] {
+					in[succ.Index], seen[succ.Index] = n, true
 					work = append(work, succ.Index)
 				}
 			}
 		}
 		for bi, b := range f.Blocks {
-			if in[bi] >= 0 {
+			if seen[bi] {
 				outState(b, in[bi], true)
 			}
 		}
 	}
 
-	// which functions are only ever called with the lock held? iterate downwards from "all"
-	calledHeld := map[*ssa.Function]bool{}
-	hasCaller := map[*ssa.Function]bool{}
+	// server table: only code that can run in a server using the in-memory backend (reachable
+	// from Server.Serve or from an exported function of imapmemserver); API entry points that
+	// this configuration never calls (e.g. SessionTracker.DecodeSeqNum) are listed in the log
+	reach := map[*ssa.Function]bool{}
+	if server {
+		var stack []*ssa.Function
+		for _, f := range funcs {
+			p := f.Pkg
+			isRoot := false
+			if p != nil && strings.HasSuffix(p.Pkg.Path(), "/imapmemserver") && f.Parent() == nil && (f.Object() == nil || f.Object().Exported()) {
+				isRoot = true
+			}
+			if p != nil && strings.HasSuffix(p.Pkg.Path(), "/imapserver") && (f.String() == "(*github.com/emersion/go-imap/v2/imapserver.Server).Serve" || f.String() == "(*github.com/emersion/go-imap/v2/imapserver.Server).ListenAndServe") {
+				isRoot = true
+			}
+			if isRoot {
+				reach[f] = true
+				stack = append(stack, f)
+			}
+		}
+		for len(stack) > 0 {
+			f := stack[len(stack)-1]
+			stack = stack[:len(stack)-1]
+			if n := cg.Nodes[f]; n != nil {
+				for _, e := range n.Out {
+					if c := e.Callee.Func; c != nil && !reach[c] {
+						reach[c] = true
+						stack = append(stack, c)
+					}
+				}
+			}
+			for _, af := range f.AnonFuncs {
+				if !reach[af] {
+					reach[af] = true
+					stack = append(stack, af)
+				}
+			}
+		}
+	}
+	// calledHeld[f]: locks held at EVERY call site of f. Greatest fixpoint: start from "all"
+	// for functions that have callers inside the analysed packages, "none" for entry points,
+	// and intersect downwards until stable (recursive functions keep what their outside callers hold).
 	inSet := map[*ssa.Function]bool{}
 	for _, f := range funcs {
-		inSet[f] = true
+		if !server || reach[f] {
+			inSet[f] = true
+		}
+	}
+	calledHeld := map[*ssa.Function]uint64{}
+	hasCaller := map[*ssa.Function]bool{}
+	for _, f := range funcs {
+		if n := cg.Nodes[f]; n != nil {
+			for _, e := range n.In {
+				if e.Caller != nil && inSet[e.Caller.Func] {
+					hasCaller[f] = true
+				}
+			}
+		}
+		if hasCaller[f] {
+			calledHeld[f] = top
+		}
 	}
 	for changed := true; changed; {
 		changed = false
-		next := map[*ssa.Function]bool{}
-		seenCaller := map[*ssa.Function]bool{}
+		next := map[*ssa.Function]uint64{}
 		for _, f := range funcs {
-			next[f] = true
+			if hasCaller[f] {
+				next[f] = top
+			}
 		}
 		for _, f := range funcs {
-			analyse(f, calledHeld[f], nil, func(site ssa.CallInstruction, held bool) {
+			if !inSet[f] {
+				continue
+			}
+			analyse(f, calledHeld[f], nil, func(site ssa.CallInstruction, held uint64) {
 				n := cg.Nodes[f]
 				if n == nil {
 					return
 				}
 				for _, e := range n.Out {
 					if e.Site == site && e.Callee != nil && inSet[e.Callee.Func] {
-						seenCaller[e.Callee.Func] = true
-						if !held {
-							next[e.Callee.Func] = false
-						}
+						next[e.Callee.Func] &= held
 					}
 				}
 			})
 		}
 		for _, f := range funcs {
-			v := next[f] && seenCaller[f]
-			if f.Parent() != nil && !seenCaller[f] {
-				v = false
-			}
-			if v != calledHeld[f] {
-				calledHeld[f] = v
+			if next[f] != calledHeld[f] {
+				calledHeld[f] = next[f]
 				changed = true
 			}
-			hasCaller[f] = seenCaller[f]
 		}
 	}
 
 	var accs []access
 	for _, f := range funcs {
+		if server && !reach[f] {
+			analyse(f, calledHeld[f], func(a access) {
+				fmt.Fprintf(os.Stderr, "UNREACHABLE-FROM-MEMSERVER %s %s %s\n", a.field, strings.TrimPrefix(a.pos, dir+"/"), a.fn)
+			}, nil)
+			continue
+		}
 		analyse(f, calledHeld[f], func(a access) { accs = append(accs, a) }, nil)
 	}
 	sort.Slice(accs, func(i, j int) bool {
@@ -227,20 +372,46 @@ func fieldAccess(dir, out string) {
 		}
 		return accs[i].field < accs[j].field
 	})
+	heldList := func(m uint64) []string {
+		var l []string
+		for i, cl := range classes {
+			if m&(1<<uint(i)) != 0 && m != top {
+				l = append(l, cl)
+			}
+		}
+		sort.Strings(l)
+		return l
+	}
 	var sb strings.Builder
-	sb.WriteString("(* Generated by /verif/lockgraph -fields from /repo's working tree — do not edit. *)\n")
+	sb.WriteString("(* Generated by /verif/lockgraph -fields / -server-fields from /repo's working tree — do not edit. *)\n")
 	sb.WriteString("From Coq Require Import List String Bool.\nImport ListNotations.\nOpen Scope string_scope.\n\n")
-	sb.WriteString("(* (field, function, position, is a write, Client.mutex held on every path, inside the constructor New) *)\n")
-	sb.WriteString("Definition guarded_accesses : list (string * string * string * bool * bool * bool) := [\n")
+	if !server {
+		sb.WriteString("(* (field, function, position, is a write, Client.mutex held on every path, inside the constructor New) *)\n")
+		sb.WriteString("Definition guarded_accesses : list (string * string * string * bool * bool * bool) := [\n")
+	} else {
+		sb.WriteString("(* (field, function, position, is a write, lock classes held on every path, exempt: through the function's own fresh allocation) *)\n")
+		sb.WriteString("Definition server_guarded_accesses : list (string * string * string * bool * list string * bool) := [\n")
+	}
 	for i, a := range accs {
 		sep := ";"
 		if i == len(accs)-1 {
 			sep = ""
 		}
-		ctor := strings.HasSuffix(a.fn, "imapclient.New")
 		fn := strings.ReplaceAll(strings.ReplaceAll(a.fn, "github.com/emersion/go-imap/v2/", ""), "\"", "'")
-		fmt.Fprintf(&sb, "  (\"%s\", \"%s\", \"%s\", %v, %v, %v)%s\n", a.field, fn, strings.TrimPrefix(a.pos, dir+"/"), a.write, a.held, ctor, sep)
-		fmt.Fprintf(os.Stderr, "ACCESS %-13s write=%-5v held=%-5v %s %s\n", a.field, a.write, a.held, strings.TrimPrefix(a.pos, dir+"/"), fn)
+		pos := strings.TrimPrefix(a.pos, dir+"/")
+		if !server {
+			held := a.held&bit(clientSpecs[0].class) != 0
+			ctor := strings.HasSuffix(a.fn, "imapclient.New")
+			fmt.Fprintf(&sb, "  (\"%s\", \"%s\", \"%s\", %v, %v, %v)%s\n", a.field, fn, pos, a.write, held, ctor, sep)
+			fmt.Fprintf(os.Stderr, "ACCESS %-13s write=%-5v held=%-5v %s %s\n", a.field, a.write, held, pos, fn)
+		} else {
+			var q []string
+			for _, c := range heldList(a.held) {
+				q = append(q, "\""+c+"\"")
+			}
+			fmt.Fprintf(&sb, "  (\"%s\", \"%s\", \"%s\", %v, [%s], %v)%s\n", a.field, fn, pos, a.write, strings.Join(q, "; "), a.fresh, sep)
+			fmt.Fprintf(os.Stderr, "ACCESS %-26s write=%-5v exempt=%-5v held=%v %s %s\n", a.field, a.write, a.fresh, heldList(a.held), pos, fn)
+		}
 	}
 	sb.WriteString("].\n")
 	os.WriteFile(out, []byte(sb.String()), 0o644)
